@@ -154,8 +154,10 @@ impl Matcher {
         }
         if self.config.prefer_prefix {
             if start != 0 {
-                let penalty = PENALTY_GAP_START
-                    + PENALTY_GAP_START * (start - 1).min(u16::MAX as usize) as u16;
+                // the start offset can be as large as the haystack: don't overflow u16
+                let penalty = PENALTY_GAP_START.saturating_add(
+                    PENALTY_GAP_START.saturating_mul((start - 1).min(u16::MAX as usize) as u16),
+                );
                 score = score
                     .saturating_add(MAX_PREFIX_BONUS.saturating_sub(penalty / PREFIX_BONUS_SCALE));
             } else {
